@@ -285,6 +285,16 @@ impl<'a> FmtVisitor<'a> {
                 Some(offset) if offset + 1 == subslice.len() => {
                     self.push_str(&subslice[..offset]);
                 }
+                Some(offset)
+                    if subslice.starts_with("/*") && !subslice[..offset].contains("*/") =>
+                {
+                    // A block comment that goes on over the next lines is one comment: cutting
+                    // it behind its first line would rewrite its tail as a comment of its own
+                    // and could lose the closing `*/`.
+                    let comment_str = rewrite_comment(subslice, false, comment_shape, self.config)
+                        .unwrap_or_else(|_| String::from(subslice));
+                    self.push_str(&comment_str);
+                }
                 Some(offset) => {
                     // keep first line as is: if it were too long and wrapped, it may get mixed
                     // with the other lines.
